@@ -122,7 +122,7 @@ func ChildMain() {
 			switch s.Kind {
 			case "attest":
 				e := s.Entries[0]
-				r := st.Attest(c01.Client, "", vkit.TargetOf(w.Accounts[e.Key], e.ByKey), s.ViaGRPC, &e.Att)
+				r := st.Attest(c01.Client, "", vkit.TargetPadded(w.Accounts[e.Key], e.ByKey, e.Pad), s.ViaGRPC, &e.Att)
 				states = []string{r.State}
 				if r.Released() {
 					a := e.Att
@@ -132,7 +132,7 @@ func ChildMain() {
 				ts := make([]vkit.Target, len(s.Entries))
 				as := make([]*vkit.Att, len(s.Entries))
 				for i := range s.Entries {
-					ts[i] = vkit.TargetOf(w.Accounts[s.Entries[i].Key], s.Entries[i].ByKey)
+					ts[i] = vkit.TargetPadded(w.Accounts[s.Entries[i].Key], s.Entries[i].ByKey, s.Entries[i].Pad)
 					as[i] = &s.Entries[i].Att
 				}
 				rs := st.AttestBatch(c01.Client, "", ts, s.ViaGRPC, as)
@@ -144,7 +144,7 @@ func ChildMain() {
 					}
 				}
 			case "propose":
-				r := st.Propose(c01.Client, "", vkit.TargetOf(w.Accounts[s.Key], s.ByKey), s.ViaGRPC, s.Prop)
+				r := st.Propose(c01.Client, "", vkit.TargetPadded(w.Accounts[s.Key], s.ByKey, s.Pad), s.ViaGRPC, s.Prop)
 				states = []string{r.State}
 				if r.Released() {
 					p := *s.Prop
